@@ -137,7 +137,7 @@ def op_legal(op):
     # the constructed model itself: its variables, the size and value of its objective, constraints per group
     variables = sorted(v.data["name"] for v in m.gekko.variable_list)
     groups = {g: len(eqs) for g, eqs in m.gekko.constraints.items()}
-    return {"equations": out, "variables": variables, "constraint_groups": groups, "objective_size": m.gekko.objective.size,
+    return {"equations": out, "variables": variables, "variable_order": [v.data["name"] for v in m.gekko.variable_list], "constraint_groups": groups, "objective_size": m.gekko.objective.size,
             "objective_value": m.gekko.objective.evaluate(), "difference_cost_terms": len(m.gekko.variable_list)}
 
 
